@@ -48,6 +48,15 @@ Proof.
   - symmetry. apply path_eqb_neq. apply path_eqb_neq in E. congruence.
 Qed.
 
+(* byte strings proper: every element below 256 (what a Go string can hold) *)
+Definition wfb (s : list N) : Prop := Forall (fun b => b < 256) s.
+
+Lemma wfb_bytes_ok : forall s, bytes_ok s = true <-> wfb s.
+Proof.
+  intros s. unfold bytes_ok, wfb, byte_ok. rewrite forallb_forall, Forall_forall.
+  split; intros H b Hb; specialize (H b Hb); apply N.ltb_lt; auto.
+Qed.
+
 (* ------------------------------------------------------------------ the file-system map *)
 
 Lemma assoc_remove : forall f p q,
